@@ -633,3 +633,116 @@ def ent_instances(h):
                 lines.append(("x H %d %d" % (cnt, 1 if tracked else 0)) if p == 0 else ("x C %d %d %d" % (p, cnt, 1 if tracked else 0)))
         lines.append("send")
         yield inst, lines, {}
+
+
+# ------------------------------------------------------------------ C05: parent links
+
+def oracle_parents(h):
+    fails = []
+    npeers = h.nclients + 1
+    for i, e in enumerate(h.events):
+        if e["ev"] != "drain":
+            continue
+        if not e["quiescent"]:
+            fails.append(("C05", "the exchange triggered by set-parent operations did not terminate (still traffic after %d rounds)" % e["rounds"], {}))
+            continue
+        views = {}
+        for p in range(npeers):
+            st = last_state(h, i, p)
+            if st is None:
+                continue
+            par = {x["uuid"]: x["parent"] for x in st["ents"]}
+            views[p] = par
+            # hierarchy well-formedness on this peer
+            listed = {}
+            for x in st["ents"]:
+                for c in x["children"]:
+                    listed.setdefault(c, []).append(x["uuid"])
+            for x in st["ents"]:
+                u, pu = x["uuid"], x["parent"]
+                if pu not in (None, "unsynced"):
+                    n = listed.get(u, []).count(pu)
+                    if n != 1:
+                        fails.append(("C05", "peer %d: a child is listed %d times among its parent's children" % (p, n), {"child": u[:8]}))
+                    if any(q != pu for q in listed.get(u, [])):
+                        fails.append(("C05", "peer %d: a child is also listed under another parent" % p, {"child": u[:8]}))
+        if views:
+            base = views[0]
+            for p, v in views.items():
+                for u in set(base) & set(v):
+                    if base[u] != v[u] and "unsynced" not in (base[u], v[u]):
+                        fails.append(("C05", "after the drain peer %d and the host disagree on an entity's parent" % p, {"child": u[:8], "host": str(base[u])[:8], "peer": str(v[u])[:8]}))
+                        break
+    return fails
+
+
+def parent_instances(h):
+    """parent slice = component slice with relayAlways: key = child uuid, value = parent uuid"""
+    binds = {b["h"]: b["uuid"] for b in h.events if b["ev"] == "bind"}
+    ppath = "bevy_hierarchy::components::parent::Parent"
+    first_drain = next((i for i, e in enumerate(h.events) if e["ev"] == "drain"), None)
+    if first_drain is None:
+        return
+    children = []
+    for e in h.events[first_drain:]:
+        if e["ev"] == "op" and e["op"] == "set_parent" and binds.get(e["h"]) and binds[e["h"]] not in children:
+            children.append(binds[e["h"]])
+    n = h.nclients
+    for uuid in children:
+        ids = {}
+        def tok(u):
+            if u is None:
+                return "-"
+            return str(ids.setdefault(u, len(ids) + 1))
+        init, ok = [], True
+        for p in h.peers():
+            st = last_state(h, first_drain, p)
+            en = ent_of(st, uuid) if st else None
+            if en is None or en["parent"] == "unsynced":
+                ok = False
+                break
+            init.append(tok(en["parent"]))
+        if not ok:
+            continue
+        inst = "%s/%s/parent" % (h.id, uuid[:8])
+        lines = ["sbegin comp %s %d 0 R %s" % (inst, n, " ".join(init))]
+        sched = {}
+        for ev in h.events[:first_drain]:
+            if ev["ev"] == "sched":
+                sched[ev["peer"]] = ev["order"]
+        for ev in h.events[first_drain:]:
+            if ev["ev"] == "sched":
+                sched[ev["peer"]] = ev["order"]
+            elif ev["ev"] == "op" and ev["op"] == "set_parent" and binds.get(ev["h"]) == uuid:
+                v = tok(binds.get(ev["parent"]))
+                lines.append("a writeH %s" % v if ev["peer"] == 0 else "a writeC %d %s" % (ev["peer"], v))
+            elif ev["ev"] == "frame" and ev.get("state") is not None:
+                p = ev["peer"]
+                recv = [m for m in ev["recv"] if m["msg"]["k"] == "parented" and m["msg"]["id"] == uuid]
+                role = "server." if p == 0 else "client."
+                flushes = 0
+                for sysname in sched.get(p, []):
+                    if sysname == role + "entity_parented_on_" + ("server" if p == 0 else "client"):
+                        lines += ["a detectH", "a reactH"] if p == 0 else ["a detectC %d" % p, "a reactC %d" % p]
+                    elif sysname == role + "poll_for_messages":
+                        if p == 0:
+                            i = 0
+                            while i < len(recv):
+                                j = i
+                                while j < len(recv) and recv[j].get("from") == recv[i].get("from"):
+                                    j += 1
+                                lines.append("a pollH %s %d" % (recv[i].get("from"), j - i))
+                                i = j
+                        elif recv:
+                            lines.append("a pollC %d %d" % (p, len(recv)))
+                        flushes = len(recv)
+                for _ in range(flushes):
+                    lines.append("a flushH" if p == 0 else "a flushC %d" % p)
+                st = ev["state"]
+                en = ent_of(st, uuid)
+                if en is None:
+                    break
+                obs = "%s %d 0" % (tok(en["parent"]), 1 if has_token(st, uuid, ppath) else 0)
+                lines.append("x H " + obs if p == 0 else "x C %d %s" % (p, obs))
+        lines.append("send")
+        yield inst, lines, {}
